@@ -745,6 +745,18 @@ func hexStrings(c *seq.Ctx) {
 	for _, s := range []string{"7fffffffffffffff", "8000000000000000", "-8000000000000000", "-8000000000000001", "ffffffffffffffff", "10000000000000000", "7vvvvvvvvvvvv", "8000000000000", "fvvvvvvvvvvvv", "g000000000000"} {
 		check(s)
 	}
+	// full-width texts: every leading digit of either case (and a sign) in front of the tails that
+	// decide overflow, at the widths where 64 bits are exactly filled or exceeded
+	const digits = "0123456789abcdefghijklmnopqrstuvABCDEFGHIJKLMNOPQRSTUV"
+	for _, w := range []int{11, 12, 13, 15, 16} {
+		for _, tail := range []string{strings.Repeat("0", w), strings.Repeat("v", w), strings.Repeat("V", w), strings.Repeat("f", w), strings.Repeat("F", w), strings.Repeat("0", w-1) + "1", "Vv" + strings.Repeat("0", w-2)} {
+			for i := 0; i < len(digits); i++ {
+				for _, sign := range []string{"", "-", "+"} {
+					check(sign + string(digits[i]) + tail)
+				}
+			}
+		}
+	}
 }
 
 // refB64: what an unpadded standard-alphabet base64 text denotes (CR and LF are ignored, as the
